@@ -13,6 +13,7 @@ import (
 	"encoding/binary"
 	"os"
 	"sync"
+	"sync/atomic"
 
 	"github.com/synnaxlabs/x/io/fs"
 	"github.com/synnaxlabs/x/telem"
@@ -24,6 +25,12 @@ type indexPersist struct {
 	p   *pointerPersist
 	idx *index
 	Config
+	// prepared numbers the snapshots taken by prepare, in the order they are taken under
+	// the index lock.
+	prepared atomic.Uint64
+	// persisted is the number of the newest snapshot written to the index file. It is
+	// guarded by p's lock.
+	persisted uint64
 }
 
 func openIndexPersist(idx *index, fs fs.FS) (*indexPersist, error) {
@@ -40,17 +47,29 @@ func (ip *indexPersist) load() ([]pointer, error) {
 func (ip *indexPersist) prepare(start int) func() error {
 	pointerEncoded := ip.p.encode(start, ip.idx.mu.pointers)
 	lenOfPointers := len(ip.idx.mu.pointers)
+	seq := ip.prepared.Add(1)
 
 	return func() error {
 		ip.p.Lock()
 		defer ip.p.Unlock()
 
+		// The closure runs after the index lock is released, so the closures of two
+		// concurrent operations may run in the opposite order of their snapshots. A newer
+		// snapshot covers everything an older one does (persistHead never grows), so an
+		// older one must not be written over it.
+		if seq < ip.persisted {
+			return nil
+		}
+
 		err := ip.p.Truncate(int64(lenOfPointers) * pointerByteSize)
 		if err != nil {
 			return err
 		}
-		_, err = ip.p.WriteAt(pointerEncoded, int64(start*pointerByteSize))
-		return err
+		if _, err = ip.p.WriteAt(pointerEncoded, int64(start*pointerByteSize)); err != nil {
+			return err
+		}
+		ip.persisted = seq
+		return nil
 	}
 }
 
